@@ -46,6 +46,9 @@ typedef struct SimConfig {
     /* fine-grained preemption (build variant "fine": library compiled with -finstrument-functions): every fine_period-th
        (seeded, on average) function entry of library code is a forced preemption point */
     uint64_t fine_period;
+    /* memory-access preemption (build variant "mem": library compiled with -fsanitize=thread instrumentation, linked against simcore's
+       own hooks instead of the TSan runtime): every mem_period-th (seeded, on average) load/store of library C code is a forced preemption point */
+    uint64_t mem_period;
     int      record_trace;   /* keep deviation list for output */
 } SimConfig;
 
@@ -60,6 +63,7 @@ typedef struct SimStats {
     uint64_t max_runnable;
     uint64_t dev_inapplicable;
     uint64_t fine_preemptions, fine_calls;
+    uint64_t mem_preemptions, mem_accesses;
 } SimStats;
 
 /* fatal outcome callback: class e.g. "DEADLOCK","LIVELOCK","STEP_LIMIT","TRAP_EXIT","TRAP_ABORT","SIM_INTERNAL" */
